@@ -116,6 +116,51 @@ def check_solution(ctx, sol, system, t0, dt, rows, key, rep, fielddim, uniform=T
     return ok
 
 
+def saveload_session(ctx, solA, solB):
+    """a session that saves and loads several times: what load_solution returns is what the file holds at that moment -- whatever was loaded or saved
+    before, however the path is spelled, and whatever was done to objects loaded earlier"""
+    from pathlib import Path
+    from cardillo.solver import load_solution
+    from cardillo.solver.solution import save_solution
+
+    def same(x, y):
+        names = [k for k, v in vars(y).items() if isinstance(v, np.ndarray)]
+        return all(np.array_equal(np.asarray(getattr(x, k, None)), np.asarray(getattr(y, k))) for k in names) and len(names) > 0
+
+    d = os.path.join(ctx.scratch, "session")
+    os.makedirs(d, exist_ok=True)
+    f = os.path.join(d, "run.pkl")
+    rel = os.path.relpath(f)
+    steps = 0
+    try:
+        refA = {k: np.array(v, copy=True) for k, v in vars(solA).items() if isinstance(v, np.ndarray)}
+        save_solution(solA, f)
+        L1 = load_solution(f); steps += 1
+        if not same(L1, solA):
+            ctx.violation("session:load-after-save", "the loaded solution differs from the saved one", {"step": 1}); return steps
+        L1.q -= 1.0                                   # the user post-processes what was loaded
+        L1.t += 5.0
+        L2 = load_solution(f); steps += 1
+        if L2 is L1 or not all(np.array_equal(np.asarray(getattr(L2, k)), v) for k, v in refA.items()):
+            ctx.violation("session:second-load", "a second load of the same file returns the object that was loaded (and modified) before instead of the file's content", {"step": 2}); return steps
+        if not all(np.array_equal(np.asarray(getattr(solA, k)), v) for k, v in refA.items()):
+            ctx.violation("session:saved-object-changed", "modifying a loaded solution changed the solution that was saved", {"step": 2}); return steps
+        # the file is overwritten under another spelling of its path
+        load_solution(Path(f)); steps += 1
+        save_solution(solB, str(f))
+        L3 = load_solution(Path(f)); steps += 1
+        if not same(L3, solB):
+            ctx.violation("session:load-after-overwrite", "after the file was overwritten (path given as str, loaded as Path) load_solution returns the old content", {"step": 4}); return steps
+        load_solution(f); steps += 1
+        solA.save(rel)
+        L4 = load_solution(f); steps += 1
+        if not all(np.array_equal(np.asarray(getattr(L4, k)), v) for k, v in refA.items()):
+            ctx.violation("session:load-after-overwrite", "after the file was overwritten (relative path) load_solution with the absolute path returns the old content", {"step": 6}); return steps
+    except Exception as ex:
+        ctx.violation(f"session:raises:{type(ex).__name__}", f"save/load session raised {type(ex).__name__}: {ex}", {"step": steps})
+    return steps
+
+
 def run(ctx):
     ctx.level = "model_checking"
     rng = ctx.rng
@@ -125,6 +170,7 @@ def run(ctx):
     fout = os.path.join(ctx.scratch, "fields.json")
     with open(cfg, "w") as f:
         f.write(f"SPECIFICATION Spec\nCONSTANTS\n  MaxT0 = 3\n  MaxDt = 4\n  MaxSpan = {span}\n  BigT0 = {{25, 100, 1000}}\n"
+                "  LongRuns <- LongRunsDefault\n"
                 "INVARIANT CountsAgree\nINVARIANT StartsAtT0\nINVARIANT StepIsDt\nINVARIANT EndsAtFirstPointAtOrAfterT1\nINVARIANT Truncated\n")
     dot = os.path.join(ctx.scratch, "tg")
     r = tlc.run_tlc("TimeGrid", cfg, scratch=ctx.scratch, dump_dot=dot, env={"FIELDS_OUT": fout}, workers=8, timeout=900)
@@ -143,6 +189,7 @@ def run(ctx):
     solvers = ["Moreau", "BackwardEuler", "Rattle", "DualStormerVerlet", "ScipyIVP", "ScipyDAE"]
     per_solver = 40 if not ctx.thorough else 400
     nrun = nok = 0
+    kept = []
     n_notjudged = 0
     samples = []
     seen = set()
@@ -178,9 +225,14 @@ def run(ctx):
                 continue
             if check_solution(ctx, rr.sol, system, t0, dt, n + 1, key, rep, fielddim):
                 nok += 1
+                if sn == "Moreau" and len(kept) < 2 and (not kept or len(kept[0].t) != len(rr.sol.t)):
+                    kept.append(rr.sol)
             seen.add((sn, tick, st["t0"], st["t1"], st["dt"]))
             if len(samples) < 3:
                 samples.append(case)
+    nsess = saveload_session(ctx, kept[0], kept[1]) if len(kept) == 2 else 0
+    if not nsess:
+        raise tlc.MachineryError("no two solutions for the save/load session")
     # 2. truncated runs: BackwardEuler returns the accepted steps when the first Newton solve of step m+1 fails
     ntr = 0
     for st in trunc[: (15 if not ctx.thorough else 150)]:
@@ -219,7 +271,8 @@ def run(ctx):
     ngrid = 0
     sysfree = {}
     for st in complete:
-        for tick in TICKS:
+        long_run = st["dt"] >= 100           # the LongRuns family: fine ticks of 1e-6
+        for tick in (["0.000001"] if long_run else TICKS):
             t0, t1, dt = lit(st["t0"], tick), lit(st["t1"], tick), lit(st["dt"], tick)
             n = -(-(st["t1"] - st["t0"]) // st["dt"])
             if t0 not in sysfree:
@@ -242,6 +295,20 @@ def run(ctx):
                                   f"{sn} plans {len(grid)} instants ending at {grid[-1]!r}; the first grid point at or after t1={t1} is "
                                   f"t0 + {n} dt (tick {tick}, ticks {st['t0']},{st['t1']},{st['dt']})", {"case": {"solver": sn, "t0": t0, "t1": t1, "dt": dt}})
     ctx.log(f"[C20] {ngrid} grids checked at construction over the whole lattice x {len(TICKS)} tick values")
+    # 2d. long runs carried out: a thousand steps, the final time just before / on / just after a grid point
+    for st in [s_ for s_ in complete if s_["dt"] >= 100 and -(-(s_["t1"] - s_["t0"]) // s_["dt"]) <= 1100]:
+        tick = "0.000001"
+        t0, t1, dt = lit(st["t0"], tick), lit(st["t1"], tick), lit(st["dt"], tick)
+        n = -(-(st["t1"] - st["t0"]) // st["dt"])
+        system = S.sys_free_mass(t0=t0)
+        rr = runs.record_run(_solver("Moreau", system, t1, dt), system, "Moreau", False, n)
+        case = {"solver": "Moreau", "system": "free_mass", "tick": tick, "t0": t0, "t1": t1, "dt": dt, "ticks": [st["t0"], st["t1"], st["dt"]], "expected_steps": n}
+        nrun += 1
+        if rr.exc is not None:
+            ctx.violation(f"Moreau:long:t1={t1}:dt={dt}:raises", f"raised {type(rr.exc).__name__}: {rr.exc} for {case}", {"case": case})
+            continue
+        if check_solution(ctx, rr.sol, system, t0, dt, n + 1, f"Moreau:long:t0={t0}:t1={t1}:dt={dt}", {"case": case}, fielddim):
+            nok += 1
     # 3. static solver: n load steps -> n + 1 rows on [0, 1]
     from cardillo.solver import Newton
     for n in ([1, 2, 3, 7] if not ctx.thorough else list(range(1, 15))):
@@ -261,7 +328,8 @@ def run(ctx):
                             "systems with different dimension signatures; truncated runs through the fault hooks; static solver by load-step count"}
     ctx.assumptions = ["only inputs on the decimal/dyadic lattice are generated, so the exact step count is unambiguous",
                        "t[k] compared with t0 + k dt at 1e-12 absolute (accumulated rounding of the solvers' own time stepping)",
-                       "the quick tier samples the lattice (seeded), the thorough tier runs up to 400 states per solver"]
+                       "the quick tier samples the lattice (seeded), the thorough tier runs up to 400 states per solver",
+                       "save/load session: save, load, modify the loaded object, load again, overwrite under another spelling of the path (str / Path / relative), load again"]
 
 
 def replay(ctx, path):
